@@ -58,6 +58,7 @@ const (
 	vpHandlerEvent  = 42
 	vpPollExit      = 43
 	vpHupEnd        = 44
+	vpPollStart     = 45
 	vpFdClose       = 50
 	vpFdOpen        = 51
 	vpSrvAccept     = 60
